@@ -449,17 +449,27 @@ def fork_trial(rng, nterm=8):
     live = set(socks)
     import time
     t0 = time.time()
+    # the frames of the two masters travel at the same time: a frame of
+    # each is taken off the sockets before either is processed (a worker
+    # that has nothing to send within 0.3 s is not waited for)
     while live and time.time() - t0 < 40:
-        for key, _ in sel.select(0.5):
-            s_ = key.fileobj
-            try:
-                data = s_.recv(65536)
-            except OSError:
-                data = b""
-            if not data:
-                sel.unregister(s_)
-                live.discard(s_)
-                continue
+        pending = {}
+        t1 = time.time()
+        while live - set(pending) and time.time() - t1 < 0.3:
+            for key, _ in sel.select(0.05):
+                s_ = key.fileobj
+                if s_ in pending:
+                    continue
+                try:
+                    data = s_.recv(65536)
+                except OSError:
+                    data = b""
+                if not data:
+                    sel.unregister(s_)
+                    live.discard(s_)
+                    continue
+                pending[s_] = data
+        for s_, data in pending.items():
             try:
                 s_.send(b.process(data))
             except OSError:
